@@ -159,6 +159,12 @@ ResultOK(a, ev) ==
                             ev.kind = "col" /\ ev.n = a.dig.n /\ ev.hs = a.dig.hs /\ ev.hu = a.dig.hu
                        [] k = "collect_x" -> ev.kind = "col" /\ ev.n = a.dig.n /\ ev.hu = a.dig.hu
                        [] k = "count" -> ev.kind = "cnt" /\ ev.n = a.dig.n
+                       [] k \in {"find", "first"} ->
+                            LET f == BigFirst(p)
+                            IN  ev.kind = "opt" /\ (IF f = <<>> THEN ev.found = 0
+                                                    ELSE ev.found = 1 /\ ev.rk[1] = f[1].k /\ ev.rv[1] = f[1].v)
+                       [] k \in {"any", "all"} ->
+                            ev.kind = "bool" /\ (ev.b = 1) = ((BigFirst(p) # <<>>) = (k = "any"))
                        [] k = "reduce" /\ p.term.op = "add" ->
                             ev.kind = "opt" /\ (IF a.dig.n = 0 THEN ev.found = 0
                                                 ELSE ev.found = 1 /\ ev.rv[1] = a.dig.sum /\ ev.rk[1] = a.dig.mink)
